@@ -42,7 +42,7 @@ def plan(tier):
 
 
 KINDS = ["random", "random", "magic", "hdr-garbage", "hdr-empty", "hdr-empty", "crc-garbage", "crc-msgs", "hello", "hello", "hello-trunc", "hello-big",
-         "hello-badversion", "multi-hello", "hello-plus-app", "auth-255", "auth-frag", "auth-challenge", "auth-disconnect", "auth-garbage-msg", "rehello", "rehello", "rehello"]
+         "hello-badversion", "multi-hello", "hello-plus-app", "auth-255", "auth-frag", "auth-challenge", "auth-disconnect", "auth-garbage-msg", "rehello", "rehello", "rehello", "spoof-burst"]
 SRC = ["pool", "pool", "pool", "spoof-honest", "blocked", "attacker-established"]
 
 attack = st.tuples(st.sampled_from(KINDS), st.sampled_from(SRC), st.integers(0, 2 ** 20), st.integers(0, 7), st.sampled_from([0, 1, 2, 3, 17, 255])).map(list)
@@ -289,6 +289,18 @@ def body(ctx, c, bulk=0):
                 if any(q[0][0] == blocked_late_ip for q in w.thread.queue):
                     ctx.violation("blocked-datagram-queued", "datagram from late-blocked %s in the loop's queue" % (late_blocked.laddr,))
             for kind, src, a, b, cnt in tick:
+                if kind == "spoof-burst":
+                    # dozens of undecodable datagrams (valid header, fresh sequence numbers, garbage body) from an honest
+                    # client's address inside one tick, i.e. with no honest datagram in between
+                    victim = honest[a % len(honest)]
+                    for j in range(34 + a % 30):
+                        body = W.Entropy(("burst", a, j)).bytes(24)
+                        dd = W.HDR.pack(W.MAGIC_TO_SERVER, int(w.clock.t), 1 + (a * 7 + j * 13) % 65535, 0, 3 + j % 5, 8, 1, 0) + body
+                        n_inj += 1
+                        ctx.evaluations += 1
+                        w.net.push(w.clock.t + 0.0005, w.server_addr, victim.laddr, dd)
+                    ctx.label("spoof-burst/established(spoofed)")
+                    continue
                 if src == "attacker-established" or kind.startswith("auth-"):
                     if atk.established is None:
                         if not atk.establish(est_addr):
